@@ -1456,10 +1456,17 @@ def run(ctx):
         viol.append((what, Item("boundary", src, None, "limit", {"expected_output": exp, "actual_output": act}), "boundary"))
     # ---- report violations (first one shrunk)
     fails = failing_predicate(binary, "C04")
+    # at most 5 reports, one per kind of failure first (a flood of one kind must not hide another)
+    seen_kinds, first, rest = set(), [], []
+    for v_ in viol:
+        kind_ = (v_[2] if isinstance(v_[2], str) else "verifier", re.sub(r"[0-9]+", "#", v_[0])[:60])
+        (rest if kind_ in seen_kinds else first).append(v_)
+        seen_kinds.add(kind_)
+    viol = first + rest
     for n, (what, it, info) in enumerate(viol[:5]):
         src = it.src
         extra = {}
-        if info and info != "limit":
+        if info and info not in ("limit", "boundary"):
             k, fn, vd = info
             extra = describe(it, k, fn, vd)
             if n == 0 and src and len(src) < 20000:
